@@ -329,6 +329,38 @@ def gen_c20_case(seed, idx):
                 desc=dict(shape='fallback'))
 
 
+def gen_seq_case(seed, idx):
+    """Two or three items expanded one after the other in the same compiler process (one crate), with names that play
+    different roles from item to item: the first item is generic over `V` and writes `T` for a *concrete* type (an alias
+    of `i8`), the second is generic over `T`; a third repeats the first shape.  An expander that remembers anything
+    about a name or a type text from one expansion to the next answers the later items wrongly."""
+    import re
+    rng = random.Random(seed * 7000003 + idx)
+    a = b = c = None
+    for _ in range(80):
+        a = gen_item(rng, names=Names(ty='XA', T='V', U='W'), gkinds=['T', 'T', 'TU', 'Tbound'])
+        if a['params_all_used']:
+            break
+    for _ in range(80):
+        b = gen_item(rng, names=Names(ty='XB'), gkinds=['T', 'T', 'TU', 'TN', 'Tbound', 'Tdef'])
+        if b['params_all_used']:
+            break
+    for _ in range(80):
+        c = gen_item(rng, names=Names(ty='XC', T='V', U='W'), gkinds=['T', 'TU'])
+        if c['params_all_used']:
+            break
+    if not (a['params_all_used'] and b['params_all_used'] and c['params_all_used']):
+        return dict(id=f'seq/{seed}/{idx}', item='', src=PRELUDE + '#[derive_ex(Clone)] pub struct X(i8);\n', traits=['Clone'], desc=dict(shape='fallback'))
+    al = lambda it: re.sub(r'\bi8\b', 'T', it['src'])
+    order = rng.choice(['ab', 'ab', 'abc', 'ba'])
+    mods = {'a': 'pub mod ma { use super::*; pub type T = i8;\n' + al(a) + '\n}\n',
+            'b': 'pub mod mb { use super::*;\n' + b['src'] + '\n}\n',
+            'c': 'pub mod mc { use super::*; pub type T = i8;\n' + al(c) + '\n}\n'}
+    body = ''.join(mods[k] for k in order)
+    return dict(id=f'seq/{seed}/{idx}', item=body, src=PRELUDE + body, traits=sorted(set(a['traits'] + b['traits'])),
+                desc=dict(order=order, shape='sequence'))
+
+
 # ---------------------------------------------------------------- C13: hostile names and scopes
 HOSTILE_TYPE_PARAMS = ['H', 'T', 'Eq', 'Fn', 'Self_', 'Rhs', 'Output', 'Target', 'Formatter', 'Hasher', 'Ordering', 'Option', 'r#type']
 HOSTILE_CONST_PARAMS = ['N', 'H', 'T', 'LEN', 'r#N']
